@@ -157,7 +157,8 @@ def run(ctx):
         src = expr(pvp, c.args[0])
         cb = [x for x in closure_bodies(fx, c) if x.calls_to(r"PossibleValue::matches$")][0]
         mc = cb.calls_to(r"PossibleValue::matches$")[0]
-        okm = expr(cb, 0) == "matches(v,arg1.0,arg1.1)" and c.callee_q.endswith("::any")
+        pm_ = cb.locals[2][1] if len(cb.locals) > 2 and cb.locals[2][1] else "arg2"
+        okm = expr(cb, 0) in ("matches(%s,arg1.0,arg1.1)" % pm_, "matches(arg2,arg1.0,arg1.1)") and c.callee_q.endswith("::any")
         res.check(src == "iter(self.0)" and okm, "R4.4", "pvp-membership", c.where(), "accepted iff any declared value matches(value, ignore_case)",
                   "PossibleValuesParser accepts by `%s` over %s with test %s: the admitted language is no longer exactly the declared names and aliases" % (c.callee_q.rsplit("::", 1)[1], src[:80], expr(cb, 0)[:60]))
         ic = expr(pvp, c.args[1])
@@ -173,7 +174,7 @@ def run(ctx):
     for c in fnd:
         cb = [x for x in closure_bodies(fx, c) if x.calls_to(r"PossibleValue::matches$")][0]
         e0 = expr(cb, 0)
-        res.check(expr(evp, c.args[0]) == "iter(value_variants())" and re.fullmatch(r"matches\(expect\(to_possible_value\(v\),.*\),arg1\.0,arg1\.1\)", e0) is not None, "R4.4", "enum-membership", c.where(),
+        res.check(expr(evp, c.args[0]) == "iter(value_variants())" and re.fullmatch(r"matches\(expect\(to_possible_value\(\w+\),.*\),arg1\.0,arg1\.1\)", e0) is not None, "R4.4", "enum-membership", c.where(),
                   "variant = first of value_variants() whose possible value matches(value, ignore_case)", "EnumValueParser selects over %s with %s" % (expr(evp, c.args[0])[:60], e0[:80]))
 
     # ---- R4.5 typed access
